@@ -27,7 +27,7 @@ RULE = ("Exhaustive blocks: every calendar date 0001-01-01..9999-12-31 (thorough
         "by hash; durations with >= 2 non-zero units or negative and floats outside [1e-4, 1e16) are counted as classes.")
 ASSUMPTIONS = ["leap second 60 and year 0000 are outside the domain (not representable in datetime)",
                "BINARY payloads are text (vBinary encodes str as UTF-8)"]
-REQUIRED_CLASSES = ["t:date", "t:datetime", "t:time", "t:offset", "t:duration", "t:period", "t:int", "t:float", "t:bool", "t:binary",
+REQUIRED_CLASSES = ["twins:bool+float+int", "twins:month", "t:date", "t:datetime", "t:time", "t:offset", "t:duration", "t:period", "t:int", "t:float", "t:bool", "t:binary",
                     "t:geo", "t:uri", "t:caladdr", "t:weekday", "t:freq", "t:month", "t:text-duration", "t:text-datetime", "t:text-offset",
                     "t:text-period", "t:text-time", "float-outside-plain-range", "duration-multi-unit-or-negative"]
 
@@ -265,6 +265,13 @@ def judge(case):
                 out.append(Failure("C03.classify", "classify/period", f"{t!r} -> {c!r}"))
         elif k == "text":
             j_text(case, out)
+        elif k == "twins":
+            # history inside one process: values that compare and hash equal although they are different values of different
+            # types (1, 1.0, True; month 5 and leap month 5L) are encoded one after the other; each must keep its own text
+            for sub in case["items"]:
+                if sub["t"] == "twins":
+                    raise ValueError("malformed case: nested twins")
+                out += judge(sub)
         else:
             raise ValueError(k)
     except Exception as e:
@@ -363,6 +370,9 @@ def info(case):
         classes = ["t:duration", "duration-multi-unit-or-negative"]
     elif k == "text":
         classes = ["t:text-" + case["kind"]]
+    elif k == "twins":
+        classes = ["twins:" + "+".join(sorted({i["t"] for i in case["items"]}))]
+        w = len(case["items"])
     else:
         classes = ["t:" + k]
         if k == "float":
@@ -445,6 +455,23 @@ def _hyp():
     return st.one_of(td, td, ints, floats, floats, geo, dts, tms, per, per, st.booleans().map(lambda b: {"t": "bool", "v": b}),
                      text.map(lambda s: {"t": "binary", "v": s}), uri.map(lambda s: {"t": "uri", "v": s}),
                      uri.map(lambda s: {"t": "caladdr", "v": s}), wd, fr, mo, grammar_texts(), grammar_texts(), grammar_texts())
+
+
+@st.composite
+def _twins(draw):
+    fam = draw(st.sampled_from(["number", "number", "month"]))
+    if fam == "number":
+        n = draw(st.sampled_from([0, 1, 1, 2, -1, 7, 100, 2 ** 31, 10 ** 6]))
+        forms = [{"t": "int", "v": str(n)}, {"t": "float", "v": repr(float(n))}]
+        if n in (0, 1):
+            forms.append({"t": "bool", "v": bool(n)})
+        if n == 0:
+            forms.append({"t": "float", "v": "-0.0"})
+    else:
+        m = draw(st.integers(1, 12))
+        forms = [{"t": "month", "v": m}, {"t": "month", "v": f"{m}L"}, {"t": "month", "v": str(m)}]
+    items = draw(st.permutations(forms))
+    return {"t": "twins", "items": list(items) + [items[0]]}
 
 
 def _num(lo, hi, pad=True):
@@ -530,6 +557,7 @@ def streams(tier):
         Stream("all-utc-offsets", "enum", 173, 16, lambda i: {"t": "offset-block", "from": -86399 + i * B, "n": min(B, 86399 * 2 + 1 - i * B)}, True, True),
         Stream("all-durations-2-days", "enum", 346, 16, lambda i: {"t": "duration-block", "from": -172800 + i * B, "n": min(B, 345601 - i * B)}, True, True),
         Stream("values-and-grammar-texts", "hyp", n, 16, _hyp),
+        Stream("equal-hash-twins", "hyp", 200, 2, _twins),
     ]
 
 
